@@ -86,6 +86,18 @@ Instance ==
     [] e = "FromHexString" -> [blob |-> T.prefix \o T.name \o <<40, SQ>> \o HexEncode(p, o.upper) \o <<SQ, 41>>, ty |-> "powershell.bytes",
                                obf |-> "encoding.hexidecimal", val |-> p, dom |-> Len(p) >= 10]
     [] e = "xmldec" -> [blob |-> XmlEncodeDec(p), ty |-> "", obf |-> "unescape.xml", val |-> p, dom |-> Len(p) >= 5]
+    [] e = "xmlmix" -> [blob |-> Concat([i \in 1..Len(p) |->
+                                   CASE T.mask[i] = 0 -> <<38, 35>> \o DecStr(p[i]) \o <<59>>
+                                     [] T.mask[i] = 1 -> <<38, 35, 120, HexLow(p[i] \div 16), HexLow(p[i] % 16), 59>>
+                                     [] T.mask[i] = 2 -> <<38, 35, 88, HexUp(p[i] \div 16), HexUp(p[i] % 16), 59>>
+                                     [] OTHER -> <<38, 35>> \o (IF p[i] < 10 THEN <<48, 48>> ELSE IF p[i] < 100 THEN <<48>> ELSE <<>>) \o DecStr(p[i]) \o <<59>>]),
+                        ty |-> "", obf |-> "unescape.xml", val |-> p, dom |-> Len(p) >= 5 /\ Len(T.mask) = Len(p)]
+    [] e = "b64wrap" -> LET t == B64Encode(p)  w == o.width
+                            nl == (Len(t) + w - 1) \div w
+                            line(k) == SubSeq(t, (k - 1) * w + 1, IF k * w > Len(t) THEN Len(t) ELSE k * w)
+                        IN [blob |-> Concat([k \in 1..nl |-> line(k) \o (IF k < nl THEN T.sep ELSE <<>>)]), ty |-> "", obf |-> "encoding.base64", val |-> p,
+                            \* every line but the last has at least 4 characters; the last at least 2 besides its padding
+                            dom |-> BareB64Accept(t) /\ w >= 4 /\ Len(line(nl)) >= 4]
     [] e = "xmlhex" -> [blob |-> XmlEncodeHex(p), ty |-> "", obf |-> "unescape.xml", val |-> p, dom |-> Len(p) >= 5]
     [] e = "chr" -> [blob |-> T.name \o <<40>> \o T.zeros \o DecStr(o.cp) \o <<41>>, ty |-> "string", obf |-> "function.chr", val |-> Utf8(o.cp),
                      dom |-> Encodable(o.cp) /\ Len(T.zeros) + Len(DecStr(o.cp)) <= 5 + Len(T.zeros) /\ o.cp <= 99999]
